@@ -77,6 +77,7 @@ type hist struct {
 	clients     []*sim.RawClient
 	peers       []*sim.Peer // permitted-able peers
 	denied      []*sim.Peer
+	strangers   []*sim.Peer // hosts no request ever names, on the port numbers of the peers
 	relays      []*net.UDPAddr
 	ctr         uint64
 	step        int
@@ -237,6 +238,14 @@ func newHist(t *testing.T, rng *rand.Rand, rec *sim.Rec, k Knobs) *hist {
 			t.Fatalf("peer: %v", err)
 		}
 		h.peers = append(h.peers, p)
+		// a host nobody ever names in a request, sending from the same port number as this peer
+		sip := net.IPv4(10, 2, 7, byte(1+i)).To4()
+		if ip.To4() == nil {
+			sip = net.ParseIP(fmt.Sprintf("fd00:2:7::%x", 1+i))
+		}
+		if sp, err := w.NewPeer(fmt.Sprintf("stranger%d", i), sip, 7000+i); err == nil {
+			h.strangers = append(h.strangers, sp)
+		}
 	}
 	d4, _ := w.NewPeer("denied4", deniedIP4, 7900)
 	h.denied = append(h.denied, d4)
@@ -651,6 +660,9 @@ func (h *hist) dataStep(n int) {
 				continue
 			}
 			p := h.anyPeer()
+			if len(h.strangers) > 0 && h.rng.Intn(6) == 0 {
+				p = pick(h.rng, h.strangers) // same port number as a peer, another host
+			}
 			st.PeerSend(p, pick(h.rng, h.relayTargets()), h.payload(h.payloadLen()))
 		}
 	}
